@@ -1,4 +1,14 @@
-"""C14 — tree volume = union of node spheres and frusta: sidecar contracts (draft)."""
+"""C14 — tree volume = union of node spheres and frusta: sidecar contracts (no edit of /repo).
+
+Carriers: volume.py:get_volume (level names, range assert, dispatch), the closure _get_volume_frustum_cone.<locals>.leave
+(volume' = volume + the node's inclusion-exclusion share, for symbolic accuracy 1..9 and 0..3 children), and
+VolSphereFrustumConeIntersection._get_volume (modular; verified where the frustum does not taper away from the sphere).
+lemmas(): the union lemma over C13's antiderivative forms.  Rests on C13 (DEPENDS): its carriers are re-verified here.
+
+ASSUMED (listed in evidence.trusted_base): the taper half of the sphere/frustum intersection (used by the general-radii
+variants of `leave` at levels >= 3; the equal-radii variants do not use it), the Monte-Carlo volume of generic SDF objects
+(levels >= 5 with >= 2 children), the analytic worker as seen from get_volume (empty contract), the sdflit handle model.
+"""
 import z3
 
 from contracts.C09 import node_obj
@@ -250,7 +260,8 @@ def sfi_setup(end, taper):
         S.assume(d["r2"].z < d["r1"].z if taper else d["r2"].z >= d["r1"].z)
         sp, fc = d["sphere"], d["frustum_cone"]
         sp.fields["sdf"], fc.fields["sdf"] = _handle(z3.Int(fresh_name("sdf"))), _handle(z3.Int(fresh_name("sdf")))
-        return dict(self=S.obj(VolSphereFrustumConeIntersection, obj1=sp, obj2=fc), hh=d["hh"], r1=d["r1"], r2=d["r2"])
+        me = S.obj(VolSphereFrustumConeIntersection, obj1=sp, obj2=fc, sdf=_handle(SDF_OP["intersect"](sp.fields["sdf"].z, fc.fields["sdf"].z)))
+        return dict(self=me, hh=d["hh"], r1=d["r1"], r2=d["r2"])
 
     return setup
 
